@@ -204,6 +204,12 @@ func VerifC03Run(c VerifCase, dir string) (obs VerifObs) {
 			return
 		}
 	}
+	dsids := make(map[string]uint32) // taken before any delete_ds
+	for _, d := range c.Datasets {
+		if ds := h.dsm.GetDataset(d); ds != nil {
+			dsids[d] = ds.InternalID
+		}
+	}
 	times := make(map[int]int64)
 	tokens := make(map[string]int64)
 	for i, op := range c.Ops {
@@ -217,12 +223,7 @@ func VerifC03Run(c VerifCase, dir string) (obs VerifObs) {
 	}
 	obs.Ns = cp
 	obs.Ids = verifIds(h.store)
-	obs.DsIds = make(map[string]uint32)
-	for _, d := range c.Datasets {
-		if ds := h.dsm.GetDataset(d); ds != nil {
-			obs.DsIds[d] = ds.InternalID
-		}
-	}
+	obs.DsIds = dsids
 	return
 }
 
@@ -619,11 +620,22 @@ func verifDoOp(h *verifHub, op VerifOp, idx int, times map[int]int64, tokens map
 			}
 			froms = res.Cont
 		}
+	case "delete_ds":
+		if err := h.dsm.DeleteDataset(op.Ds); err != nil {
+			oo.Err = err.Error()
+		}
 	default:
+		if f, ok := VerifExtOps[op.Op]; ok {
+			return f(h.store, h.dsm, op, tokens)
+		}
 		oo.Err = "unknown op " + op.Op
 	}
 	return
 }
+
+// VerifExtOps lets the driver's main package add operations that need packages which import package server
+// (jobs: relationship queries from inside a job's javascript transform; web: POST /query with continuation tokens)
+var VerifExtOps = map[string]func(store *Store, dsm *DsManager, op VerifOp, tokens map[string]int64) VerifOpObs{}
 
 // GetChangesWatermark2: number of change-log entries (robust on an empty dataset, unlike GetChangesWatermark)
 func (ds *Dataset) GetChangesWatermark2() (uint64, error) {
